@@ -76,6 +76,84 @@ where
     }
 }
 
+const B64: &[u8; 64] = b"ABCDEFGHIJKLMNOPQRSTUVWXYZabcdefghijklmnopqrstuvwxyz0123456789-_";
+fn b64_decode(s: &str) -> Vec<u8> {
+    let (mut acc, mut bits, mut out) = (0u32, 0u32, vec![]);
+    for c in s.bytes() {
+        let v = B64.iter().position(|&a| a == c).expect("alphabet") as u32;
+        acc = (acc << 6) | v;
+        bits += 6;
+        if bits >= 8 {
+            bits -= 8;
+            out.push((acc >> bits) as u8);
+        }
+    }
+    out
+}
+fn b64_encode(d: &[u8]) -> String {
+    let (mut acc, mut bits, mut out) = (0u32, 0u32, String::new());
+    for &b in d {
+        acc = (acc << 8) | b as u32;
+        bits += 8;
+        while bits >= 6 {
+            bits -= 6;
+            out.push(B64[((acc >> bits) & 63) as usize] as char);
+        }
+    }
+    if bits > 0 {
+        out.push(B64[((acc << (6 - bits)) & 63) as usize] as char);
+    }
+    out
+}
+
+/// the malleated twin of a signed token: Ed25519 S + L (non-canonical scalar), ECDSA (r, n - s)
+fn signature_twin(tok: &str) -> Option<String> {
+    let mut parts = tok.splitn(3, '.');
+    let (v, p, rest) = (parts.next()?, parts.next()?, parts.next()?);
+    let (body, footer) = match rest.split_once('.') {
+        Some((b, f)) => (b, Some(f)),
+        None => (rest, None),
+    };
+    let mut b = b64_decode(body);
+    match VER {
+        2 | 4 => {
+            let l: [u8; 32] = [0xed, 0xd3, 0xf5, 0x5c, 0x1a, 0x63, 0x12, 0x58, 0xd6, 0x9c, 0xf7, 0xa2, 0xde, 0xf9, 0xde, 0x14, 0, 0, 0, 0, 0, 0, 0, 0, 0, 0, 0, 0, 0, 0, 0, 0x10];
+            let n = b.len();
+            let s = &mut b[n - 32..];
+            let mut carry = 0u16;
+            for k in 0..32 {
+                let x = s[k] as u16 + l[k] as u16 + carry;
+                s[k] = x as u8;
+                carry = x >> 8;
+            }
+            if carry != 0 {
+                return None;
+            }
+        }
+        3 => {
+            let nn: [u8; 48] = [
+                0xff, 0xff, 0xff, 0xff, 0xff, 0xff, 0xff, 0xff, 0xff, 0xff, 0xff, 0xff, 0xff, 0xff, 0xff, 0xff, 0xff, 0xff, 0xff, 0xff, 0xff, 0xff, 0xff, 0xff, 0xc7, 0x63, 0x4d, 0x81, 0xf4, 0x37, 0x2d, 0xdf, 0x58, 0x1a, 0x0d, 0xb2,
+                0x48, 0xb0, 0xa7, 0x7a, 0xec, 0xec, 0x19, 0x6a, 0xcc, 0xc5, 0x29, 0x73,
+            ];
+            let n = b.len();
+            let s = &mut b[n - 48..];
+            let mut borrow = 0i16;
+            for k in (0..48).rev() {
+                let x = nn[k] as i16 - s[k] as i16 - borrow;
+                s[k] = x.rem_euclid(256) as u8;
+                borrow = if x < 0 { 1 } else { 0 };
+            }
+        }
+        _ => return None,
+    }
+    let mut out = format!("{v}.{p}.{}", b64_encode(&b));
+    if let Some(f) = footer {
+        out.push('.');
+        out.push_str(f);
+    }
+    Some(out)
+}
+
 fn forge(tok: &str) -> String {
     // flip one character in the middle of the body to another alphabet character
     let mut b = tok.as_bytes().to_vec();
@@ -144,6 +222,12 @@ fn local_ops(o: &mut Out) {
             o.line(&format!("decrypt.forged.{name}"), show(r));
             let r = tok.parse::<EncryptedToken<V, Raw, Vec<u8>>>().and_then(|t| t.decrypt_with_aad(&key, b"assertion", &nv)).map(|u| u.claims.0);
             o.line(&format!("decrypt.wrong-aad.{name}"), show(r));
+            for cut in [1usize, 30, 60, 90, 120] {
+                if tok.len() > cut + 12 {
+                    let r = tok[..tok.len() - cut].parse::<EncryptedToken<V, Raw, Vec<u8>>>().and_then(|t| t.decrypt(&key, &nv)).map(|u| u.claims.0);
+                    o.line(&format!("decrypt.truncated-{cut}.{name}"), show(r));
+                }
+            }
         }
     }
     #[cfg(feature = "has-id")]
@@ -260,6 +344,22 @@ fn public_ops(o: &mut Out) {
         o.line("verify.forged", show(r));
         let r = tok.parse::<SignedToken<V, Raw, Vec<u8>>>().and_then(|t| t.verify_with_aad(&pk, b"assertion", &nv)).map(|u| u.claims.0);
         o.line("verify.wrong-aad", show(r));
+        // every build must treat the malleated twin of the signature the same way
+        if let Some(twin) = signature_twin(&tok) {
+            let r = twin.parse::<SignedToken<V, Raw, Vec<u8>>>().and_then(|t| t.verify(&pk, &nv)).map(|u| u.claims.0);
+            o.line("verify.signature-twin", show(r));
+        }
+        // too short / empty bodies
+        for cut in [1usize, 40, 70, 100] {
+            if tok.len() > cut + 12 {
+                let short = &tok[..tok.len() - cut];
+                if let Some(i) = short.rfind('.') {
+                    let _ = i;
+                }
+                let r = short.parse::<SignedToken<V, Raw, Vec<u8>>>().and_then(|t| t.verify(&pk, &nv)).map(|u| u.claims.0);
+                o.line(&format!("verify.truncated-{cut}"), show(r));
+            }
+        }
     }
 }
 
